@@ -741,6 +741,19 @@ func c15Docs() [][]string {
 	return docs
 }
 
+// ctxAltJSON binds the same prefixes to other namespaces (requests with different contexts follow each other)
+func ctxAltJSON() string {
+	return `{"id":"@context","namespaces":{"_":"http://alt/","ex":"http://alt.ex/ns#","s":"https://alt.sec/","httpx":"http://alt.hx/"}}`
+}
+
+func docTextCtx(ctx string, ents []string, cont string) string {
+	parts := append([]string{ctx}, ents...)
+	if cont != "" {
+		parts = append(parts, `{"id":"@continuation","token":"`+cont+`"}`)
+	}
+	return "[" + strings.Join(parts, ",") + "]"
+}
+
 func docText(ents []string, cont string) string {
 	parts := append([]string{ctxJSON()}, ents...)
 	if cont != "" {
@@ -912,8 +925,13 @@ func c15Run(t c15Task) (res c15Result) {
 	case "roundtrip":
 		docs := c15Docs()
 		for i := t.From; i < t.To && i < len(docs); i++ {
-			for _, cont := range []string{"", "dG9r"} {
+			for _, cont := range []string{"", "dG9r", "alt"} {
 				text := docText(docs[i], cont)
+				if cont == "alt" {
+					// the same document under a context that binds every prefix to another namespace
+					cont = ""
+					text = docTextCtx(ctxAltJSON(), docs[i], "")
+				}
 				label := fmt.Sprintf("doc%d", i)
 				class := res.judgeParse(w, "roundtrip", label, text, false)
 				if class != "valid" {
